@@ -1,6 +1,8 @@
 import AdfObdd.Complete
 import AdfObdd.PreGround
 import AdfObdd.AdfModel
+import AdfObdd.CompleteExact
+import AdfObdd.OpsProofs
 /-! # C02 — complete-model enumeration: sound, complete (and duplicate free through C20)
 
 The code enumerates the refinements of the grounded interpretation with the three-valued iterator
@@ -27,8 +29,9 @@ theorem grounded_is_complete (D : List BoolFn) (g : I3) (hg : IsLfp D g) : Gam D
 theorem pregrounded_same_complete (D : List BoolFn) (g w : I3) (h : IsLfp D g) :
     Gam (pre D g) w = w ↔ Gam D w = w := pre_complete_iff D g w h
 
-/-- the full statement about the concrete enumeration `completeAll` (the function the driver runs),
-kept visible; its proof composes the three theorems above with C20's enumeration theorem -/
+/-- the full statement about the concrete enumeration `completeAll` (the function the driver runs):
+read as three-valued interpretations the answers contain no duplicate, are exactly the complete
+interpretations (fixpoints of Γ of the right length), and the first answer is the grounded vector -/
 def complete_exact_statement : Prop :=
   ∀ (s : Store) (n : Nat) (ac : List Nat), WF s → ac.length = n → (∀ t ∈ ac, t < s.nodes.size) →
     let r := completeAll s n ac
@@ -36,7 +39,35 @@ def complete_exact_statement : Prop :=
     (∀ w : I3, w ∈ r.2.2.map (fun v => v.map storeIsConst) ↔ (w.length = n ∧ Gam (ac.map (eval s)) w = w)) ∧
     r.2.2.head? = some r.2.1
 
+/-- proved: composes the filter theorem (in the store reached so far; verdicts do not depend on
+the store), C20 (`threeValAll` = every refinement of the grounded vector once, the vector itself
+first) and C01 (`grounded_native`: least fixpoint) -/
+theorem complete_exact : complete_exact_statement := by
+  intro s n ac hw hn hv
+  exact CompleteExact.completeAll_exact s n ac hw hn hv
+
+/-- the loop of `Adf::complete` only extends the store and keeps it well formed, and the second
+component is the grounded vector of C01 -/
+theorem complete_store (s : Store) (n : Nat) (ac : List Nat) (hw : WF s) (hn : ac.length = n)
+    (hv : ∀ t ∈ ac, t < s.nodes.size) :
+    WF (completeAll s n ac).1 ∧ Ext s (completeAll s n ac).1 ∧
+    (completeAll s n ac).2.1 = (groundedLoop StoreRA (n + 1) s ac).2 :=
+  CompleteExact.completeAll_store s n ac hw hn hv
+
 example : Gam [fun _ => true] [some true] = [some true] := by
   simp [Gam, constOf_some]
+
+/-! non-vacuity: the hypotheses of `complete_exact` are satisfiable and the conclusion speaks about
+non-empty answers — the one-statement framework with condition ⊤ on the initial store -/
+example : [some true] ∈ (completeAll Store.init 1 [1]).2.2.map (fun v => v.map storeIsConst) :=
+  ((complete_exact Store.init 1 [1] WF_init rfl (by simp [Store.init])).2.1 [some true]).mpr
+    ⟨rfl, by simp [Gam, constOf_some, eval_one]⟩
+/-- … and it is refutable: the all-undecided interpretation is not an answer there -/
+example : [none] ∉ (completeAll Store.init 1 [1]).2.2.map (fun v => v.map storeIsConst) := by
+  intro h
+  have := (((complete_exact Store.init 1 [1] WF_init rfl (by simp [Store.init])).2.1 [none]).mp h).2
+  have e : Gam (List.map (eval Store.init) [1]) [none] = [some true] := by
+    simp [Gam, constOf_some, eval_one]
+  rw [e] at this; cases this
 
 end C02
